@@ -106,6 +106,104 @@ func c07CellProgram(cell c07Cell, guardOn int) (*Program, []byte) {
 	return p, []byte("[1,2]")
 }
 
+// ---- signals raised inside a loop header (through a match block): the header is not inside its own loop
+
+type c07Header struct{ sig, pos, outer string }
+
+func c07Headers() []c07Header {
+	var out []c07Header
+	for _, s := range []string{"break", "continue", "return", "next", "exit"} {
+		for _, pos := range []string{"for-pre", "for-cond", "for-post", "while-cond", "forin-iterable"} {
+			for _, o := range []string{"while", "for", "forin-array"} {
+				out = append(out, c07Header{s, pos, o})
+			}
+		}
+	}
+	return out
+}
+
+func c07HeaderProgram(h c07Header, guardOn int) (*Program, []byte) {
+	// match (subject) { guard => { SIG }, other => rest }
+	sw := func(subj Expr, guard int, rest Expr) Expr {
+		return &MatchExpr{Subj: subj, Cases: []*MatchCase{
+			{Pats: []Expr{N(strconv.Itoa(guard))}, Block: Blk(Pr(S("signal-from-header")), sigStmt(h.sig))},
+			{Pats: []Expr{V("other")}, Body: rest},
+		}}
+	}
+	body := []Stmt{ES(&IncDec{Op: "++", X: V("n")}), Pr(S("in"), V("n"), V("j"))}
+	var inner Stmt
+	switch h.pos {
+	case "for-pre":
+		inner = &For{Pre: Asg(V("j"), sw(V("round"), guardOn, N("0"))), C: Bin("<", V("j"), N("2")), Post: &IncDec{Op: "++", X: V("j")}, Body: &Block{Stmts: body}}
+	case "for-cond":
+		inner = &For{Pre: Asg(V("j"), N("0")), C: sw(V("j"), guardOn%3, Bin("<", V("other"), N("3"))), Post: &IncDec{Op: "++", X: V("j")}, Body: &Block{Stmts: body}}
+	case "for-post":
+		inner = &For{Pre: Asg(V("j"), N("0")), C: Bin("<", V("j"), N("4")), Post: Asg(V("j"), sw(V("j"), guardOn%3, Bin("+", V("other"), N("1")))), Body: &Block{Stmts: body}}
+	case "while-cond":
+		inner = Blk(ES(Asg(V("j"), N("0"))), &While{C: sw(V("j"), guardOn%3, Bin("<", V("other"), N("3"))), Body: &Block{Stmts: append([]Stmt{ES(&IncDec{Op: "++", X: V("j")})}, body...)}})
+	default:
+		inner = &ForIn{V: "j", It: sw(V("round"), guardOn, Arr(N("10"), N("20"))), Body: &Block{Stmts: body}}
+	}
+	ob := []Stmt{ES(&IncDec{Op: "++", X: V("round")}), Pr(S("out"), V("round")), inner, Pr(S("after-inner"), V("round"))}
+	outer, _ := mkLoop(h.outer, "o", ob)
+	fb := []Stmt{ES(Asg(V("n"), N("0"))), ES(Asg(V("round"), N("0"))), Pr(S("start")), outer, Pr(S("after-outer"), V("n"), V("round")), &Return{X: S("fell-off")}}
+	p := &Program{Items: []any{
+		&Func{Name: "run", Body: &Block{Stmts: fb}},
+		&Rule{Kind: "pattern", Body: Blk(Pr(S("rule1"), V("$")), Pr(S("result"), CallE(V("run"))), Pr(S("rule1-end")))},
+		&Rule{Kind: "pattern", Body: Blk(Pr(S("rule2"), V("$")))},
+		&Rule{Kind: "END", Body: Blk(Pr(S("END")))},
+	}}
+	return p, []byte("[1,2]")
+}
+
+// ---- long histories: the signals work the same on the 100000th round as on the first (law on the implementation alone)
+
+type c07Long struct{ name, prog, input, want string }
+
+func c07Longs() []c07Long {
+	big := func(n int) string {
+		var sb strings.Builder
+		sb.WriteByte('[')
+		for i := 0; i < n; i++ {
+			if i > 0 {
+				sb.WriteByte(',')
+			}
+			sb.WriteString(strconv.Itoa(i))
+		}
+		sb.WriteByte(']')
+		return sb.String()
+	}
+	return []c07Long{
+		{"continue-in-for/150000", "BEGIN { for (i = 0; i < 150000; i++) { if (i % 2 == 0) { continue } n++ } print n, i }", "", "75000 150000\n"},
+		{"break-inner-of-while/120000", "BEGIN { while (i < 120000) { i++; for (j in [1, 2, 3]) { if (j == 2) { break } n++ } } print n, i }", "", "120000 120000\n"},
+		{"continue-in-forin/120000", "BEGIN { for (i = 0; i < 120000; i++) { for (j in [1, 2, 3]) { if (j == 2) continue; n++ } } print n }", "", "240000\n"},
+		{"early-return/120000", "function f(x) { if (x % 2 == 0) { return 'even' } return 'odd' } BEGIN { for (i = 0; i < 120000; i++) { if (f(i) == 'even') n++ } print n }", "", "60000\n"},
+		{"return-from-loop-in-function/120000", "function f(x) { for (k in [1, 2, 3]) { while (true) { return k + x } } } BEGIN { for (i = 0; i < 120000; i++) { n = n + f(1) } print n }", "", "240000\n"},
+		{"next-in-rule/120000", "$ % 2 == 0 { next } { n++ } END { print n }", big(120000), "60000\n"},
+		{"next-in-function/70000", "function skip() { next } $ % 2 == 0 { skip() } { n++ } END { print n }", big(70000), "35000\n"},
+		{"return-in-match-block/120000", "function f(x) { match (x % 2) { 0 => { return 'even' }, other => { return 'odd' } } } BEGIN { for (i = 0; i < 120000; i++) { if (f(i) == 'even') n++ } print n }", "", "60000\n"},
+		{"continue-in-match-block/120000", "BEGIN { n = 0; for (i = 0; i < 120000; i++) { match (i % 3) { 0 => { continue }, 1 => { n++ } } m++ } print n, m }", "", "40000 80000\n"},
+		{"break-in-match-block/120000", "BEGIN { for (i = 0; i < 120000; i++) { for (j in [1, 2]) { match (j) { 2 => { break } } n++ } } print n }", "", "120000\n"},
+		{"next-in-match-block/70000", "{ match ($ % 2) { 0 => { next } } n++ } END { print n }", big(70000), "35000\n"},
+	}
+}
+
+func c07LongRun(c *Case, l c07Long) {
+	var files []InFile
+	if l.input != "" {
+		files = []InFile{{Name: "in.json", Data: []byte(l.input)}}
+	}
+	lib := RunLib(l.prog, files, nil, RunOpts{Budget: 2000000000})
+	c.NonTrivial("long:" + l.name)
+	c.Count("long_history:" + strings.SplitN(l.name, "/", 2)[0])
+	want := strings.ReplaceAll(l.want, "\\n", "\n")
+	if lib.Class == "ok" && string(lib.Stdout) == want {
+		c.Held()
+		return
+	}
+	c.Violation(fmt.Sprintf("long history %s: want %q, got %s (%s) %q", l.name, want, lib.Class, lib.Msg, clip(string(lib.Stdout), 80)), nil, map[string]any{"program": l.prog, "input_elements": strings.Count(l.input, ",") + 1})
+}
+
 // ---- object-order slice: each key exactly once, same order in repeated runs and iterations
 
 func c07ObjOrder(c *Case) {
@@ -228,7 +326,7 @@ func c07ObjOrder(c *Case) {
 }
 
 func c07Cases(tier string) int {
-	n := len(c07Matrix())*3 + 300
+	n := len(c07Matrix())*3 + 300 + len(c07Headers())*3 + len(c07Longs())
 	if tier == "thorough" {
 		return n + 400000
 	}
@@ -251,6 +349,19 @@ func c07Run(c *Case) {
 		}
 	case i < len(mat)*3+300:
 		c07ObjOrder(c)
+	case i < len(mat)*3+300+len(c07Headers())*3:
+		k := i - len(mat)*3 - 300
+		h := c07Headers()[k/3]
+		p, doc := c07HeaderProgram(h, 1+k%3)
+		key := fmt.Sprintf("header:%s/%s/outer=%s/g%d", h.sig, h.pos, h.outer, 1+k%3)
+		c.NonTrivial(key)
+		c.Count("header:" + h.sig + "/" + h.pos)
+		m2(c, &M2Case{Prog: p, Files: []InFile{{Name: "in.json", Data: doc}}, Desc: key})
+		if k == 7 {
+			c.Sample(map[string]any{"header_cell": key, "program": Canon(p)})
+		}
+	case i < len(mat)*3+300+len(c07Headers())*3+len(c07Longs()):
+		c07LongRun(c, c07Longs()[i-len(mat)*3-300-len(c07Headers())*3])
 	default:
 		g := newStructGen(c.Rng, sgOpts{MaxDepth: 2 + c.Rng.IntN(4), Funcs: c.Rng.IntN(2) == 0, Signals: true, Exit: true, MultiRule: true, NonASCII: true})
 		p, doc := g.Program()
@@ -280,7 +391,7 @@ func c07Run(c *Case) {
 			}
 			c.Max("max_trace_lines", lines)
 		}
-		if i == len(mat)*3+300 {
+		if i == len(mat)*3+300+len(c07Headers())*3+len(c07Longs()) {
 			c.Sample(map[string]any{"structured_program": text, "input": string(doc)})
 		}
 	}
@@ -289,11 +400,11 @@ func c07Run(c *Case) {
 func init() {
 	register(&Prop{
 		ID: "C07", Level: "exploration",
-		Rule:          "enumerated: 5 signals (break continue return next exit) x 5 loop kinds x {inner, outer loop of a 2-nest} x {before, after the trace print} x 3 guard positions, inside a function called from the first of two pattern rules over a 2-element input; 300 object-order cases (2-12 keys: every key once, identical order in two iterations and 8 runs); sampled: structured programs (if/else incl. brace-less and dangling else, while, 3-clause for, for-in over arrays/strings/objects, nesting <= 5, guarded signals, functions) whose stdout trace is compared line by line with the reference model. Non-trivial = trace of >= 5 lines and at least one signal executed (counted in the model's execution); distinct by program text.",
+		Rule:          "enumerated: 5 signals (break continue return next exit) x 5 loop kinds x {inner, outer loop of a 2-nest} x {before, after the trace print} x 3 guard positions, inside a function called from the first of two pattern rules over a 2-element input; 300 object-order cases (2-12 keys: every key once, identical order in two iterations and 8 runs); 5 signals raised from inside a loop header (for initialiser / condition / post-expression, while condition, for-in iterable, through a match block) x 3 enclosing loop kinds x 3 guard positions: the header is not inside its own loop; 11 long histories (70000-150000 rounds of continue / break / return / next, also from match blocks and from a called function, results known in closed form): the hundred-thousandth signal works like the first; sampled: structured programs (if/else incl. brace-less and dangling else, while, 3-clause for, for-in over arrays/strings/objects, nesting <= 5, guarded signals, functions) whose stdout trace is compared line by line with the reference model. Non-trivial = trace of >= 5 lines and at least one signal executed (counted in the model's execution); distinct by program text.",
 		NumCases:      c07Cases,
 		Run:           c07Run,
 		MinConclusive: func(tier string) int { return 3000 },
-		Exhaustive:    func(tier string) string { return "signal x loop kind x placement matrix (300 cells)" },
+		Exhaustive:    func(tier string) string { return "signal x loop kind x placement matrix (300 cells), signal x header position x enclosing loop (225 cells), long-history table" },
 		Assumptions:   []string{"statement semantics of DESIGN.md section 3.6-3.7", "generated programs obey the generator discipline of section 3.14 (no location both read and written in one statement, no mutation of an iterated container)"},
 	})
 }
